@@ -30,8 +30,9 @@ pub const TEXT_SHAPES: [&str; 12] = [
 /// long before 8 MiB would overflow, whatever the frame size of the build profile.
 pub const SMALL_STACK_APIS: [&str; 3] = ["iter@256k", "peeknext@256k", "pull+loader@256k"];
 pub const TREE_SHAPES: [&str; 5] = ["tree-seq", "tree-mapval", "tree-mapkey", "tree-seq-mlstr", "tree-mapval-mlstr"];
-pub const TEXT_APIS: [&str; 7] = [
+pub const TEXT_APIS: [&str; 9] = [
     "iter", "peeknext", "load", "lfs:Yaml", "lfs:YamlOwned", "lfs:MarkedYaml", "lfs:MarkedYamlOwned",
+    "decode", "decode:utf16le",
 ];
 pub const TREE_APIS: [&str; 7] = ["drop", "clone", "eq", "hash", "emit", "emit:multiline", "emit:noncompact"];
 /// Wide (long, not deep) documents and shallow-but-closed flow nests: nothing may recurse per
@@ -540,6 +541,24 @@ fn scenario(shape: &str, depth: usize, api: &str) -> String {
                 Err(e) => format!("ERR {e} (after {} events)", s.0),
             }
         }
+        "decode" | "decode:utf16le" => {
+            // the byte-input route to the same loader: whatever stack it runs the loader on
+            let bytes: Vec<u8> = if api == "decode" {
+                text.into_bytes()
+            } else {
+                let mut b = vec![0xFF, 0xFE];
+                b.extend(text.encode_utf16().flat_map(u16::to_le_bytes));
+                b
+            };
+            match saphyr::YamlDecoder::read(std::io::Cursor::new(bytes)).decode() {
+                Ok(d) => {
+                    let n = d.len();
+                    std::mem::forget(d);
+                    format!("OK {n} documents")
+                }
+                Err(e) => format!("ERR {e}"),
+            }
+        }
         "lfs:Yaml" => fin(Yaml::load_from_str(&text)),
         "lfs:YamlOwned" => fin(YamlOwned::load_from_str(&text)),
         "lfs:MarkedYaml" => fin(MarkedYaml::load_from_str(&text)),
@@ -706,7 +725,7 @@ pub fn key_of(s: &Scn) -> String {
 
 fn grid(cfg: &Config) -> Vec<Scn> {
     let thorough = cfg.tier == "thorough";
-    let base: Vec<usize> = if thorough { vec![10, 100, 1000, 10_000, 100_000] } else { vec![1000, 100_000] };
+    let base: Vec<usize> = if thorough { vec![10, 100, 1000, 3000, 10_000, 100_000] } else { vec![1000, 100_000] };
     let mut r = SplitMix64::new(mix(cfg.seed, 11, 0));
     let mut v = Vec::new();
     let depths_for = |r: &mut SplitMix64| -> Vec<usize> {
@@ -723,7 +742,10 @@ fn grid(cfg: &Config) -> Vec<Scn> {
                 .collect();
             d.extend(extra);
         } else {
-            let b = *r.pick(&[3000usize, 30_000]);
+            // just below the depth from which the listed aborts are the known ones: an abort here
+            // means the stack available per level has shrunk (larger frames, or a smaller stack)
+            d.push(2900 + r.usize(600));
+            let b = *r.pick(&[10_000usize, 30_000]);
             d.push(b - b / 10 + r.usize(b / 5 + 1));
         }
         d
@@ -773,6 +795,10 @@ fn grid(cfg: &Config) -> Vec<Scn> {
     // every repeated top-level construct (the instruction clock's input families), long and flat:
     // the pull interface on the small stack, the push interface and one full life cycle on 8 MiB
     for fam in crate::scale::FAMILIES {
+        if fam.starts_with("deep-nest-") {
+            // deep, not flat: the block shapes above cover nesting
+            continue;
+        }
         let shape = format!("family:{fam}");
         let size = if thorough { 1_000_000 - r.usize(100_000) } else { 200_000 - r.usize(20_000) };
         for api in ["iter@256k", "peeknext@256k", "load", "roundtrip:Yaml", "roundtrip:MarkedYamlOwned"] {
